@@ -1655,8 +1655,8 @@ def df_slice(df, lb = None, ub = None, openclose = '(]', n = 1):
     if isinstance(lb, tuple) and len(lb) == 2 and ub is None:
         lb, ub = lb
     if isinstance(ub, datetime.time) and isinstance(lb, datetime.time) and lb>ub:
-        pre  = df_slice(df, None, ub)
-        post = df_slice(df, lb, None)
+        pre  = df_slice(df, None, ub, openclose)
+        post = df_slice(df, lb, None, openclose)
         return pd.concat([pre, post]).sort_index()        
     if isinstance(df, list): 
         if isinstance(lb, list) and ub is None:
